@@ -34,6 +34,7 @@ IDX = Schema(
 )
 
 
+
 def valid_index(t):
     """type invariant of an Index (goes into every precondition)."""
     return z3.And(
@@ -85,3 +86,6 @@ def same_orbital(i, j):
     """sigma assigns the same spin orbital to both indices."""
     i, j = term(i), term(j)
     return z3.And(orb(i) == orb(j), orb_spin(i) == orb_spin(j))
+
+
+IDX.invariant = valid_index
